@@ -1,63 +1,44 @@
-(* MemArenaModel.v — ArenaAllocator: reset, destructor, whole histories (C19). *)
+(* MemArenaModel.v — ArenaAllocator: reset, destructor, whole histories (C19; code with the K8 repairs). *)
 From Coq Require Import List Arith Bool Lia Permutation.
 Require Import XV.GenCont XV.GenMem XV.MemDefs XV.MemModel XV.MemListModel.
 Import ListNotations.
 
+(* reset() never calls the manager's allocate and cannot fail; it leaves no block *)
 Lemma arena_reset_spec : forall a h h1 a1 ok, ainv a h -> arena_reset a h = (h1, a1, ok) ->
-  ainv a1 h1 /\ am a1 = am a /\ absize a1 = absize a /\ aleak a1 = aleak a /\
-  (ok = true -> ablocks a1 = [] /\ lhead (alist a1) <> None /\ lnodes (alist a1) = []) /\
-  (ok = false -> a1 = a /\ live h1 = live h) /\
-  (lhead (alist a) <> None -> ok = true /\ next h1 = next h /\ fuse h1 = fuse h) /\
-  (fuse h = None -> ok = true /\ fuse h1 = None).
+  ainv a1 h1 /\ am a1 = am a /\ absize a1 = absize a /\ aleak a1 = aleak a /\ ok = true /\
+  ablocks a1 = [] /\ next h1 = next h /\ fuse h1 = fuse h.
 Proof.
-  intros a h h1 a1 ok [[Wl Wb] I] H. unfold arena_reset in H.
-  destruct (get_head TAG_ANODE (alist a) h) as [[h2 l2] ok2] eqn:G.
+  intros a h h1 a1 ok [[Wl Wb] I] H. unfold arena_reset in H. cbn in H.
+  destruct (lhead (alist a)) as [hd|] eqn:E.
+  2:{ inversion H; subst. destruct (Wl E) as [N _]. sp; auto; try (split; [split; auto|auto]). }
+  destruct (lnodes (alist a)) as [|n r] eqn:EN.
+  { inversion H; subst. specialize (Wb eq_refl). sp; auto. split; [split; [exact Wl | intros _; exact Wb] | exact I]. }
+  unfold arena_reset_body, get_head in H. rewrite E in H. inversion H; subst; clear H.
   unfold aowned in I. rewrite <- app_assoc in I.
-  pose proof (get_head_spec _ _ _ _ _ _ _ I G) as [I2 [[SM [SN SF]] [HD [TH HH]]]].
-  assert (FZ : fuse h = None -> ok2 = true /\ fuse h2 = None).
-  { intros Fz. unfold get_head in G. destruct (lhead (alist a)); [inversion G; subst; auto|].
-    destruct (alloc_nofuse (lm (alist a)) TAG_ANODE 1 h Fz) as [hx [Ax Fx]]. rewrite Ax in G. inversion G; subst; auto. }
-  destruct ok2; inversion H; subst; clear H.
-  - specialize (HD eq_refl).
-    assert (I3 : linv (lowned l2 ++ aleak a) (fold_left (fun h b => block_dtor (lm l2) b h) (ablocks a) h2)).
-    { apply blocks_dtor_spec. eapply linv_perm; [|exact I2]. unfold am. rewrite SM. permp. }
-    destruct (blocks_dtor_next (lm l2) (ablocks a) h2) as [N2 F2].
-    split.
-    + apply ainv_intro; auto. cbn. eapply linv_perm; [|exact I3].
-      unfold lowned, ids_of, hd_list. cbn [lm lhead lnodes lfree]. permp.
-    + sp; cbn; auto; try discriminate;
-        try (intros HN; destruct (HH HN) as [-> [-> _]]; sp; auto; fail);
-        try (intros Fz; destruct (FZ Fz) as [_ F3]; split; auto; congruence).
-  - destruct (TH eq_refl) as [-> L]. split.
-    + split; [split; auto|]. unfold aowned. rewrite <- app_assoc. exact I2.
-    + sp; auto; try discriminate;
-        try (intros HN; destruct (HH HN) as [_ [_ X]]; discriminate);
-        try (intros Fz; destruct (FZ Fz); discriminate).
+  assert (I3 : linv (lowned (alist a) ++ aleak a)
+                    (fold_left (fun h b => block_dtor (lm (alist a)) b h) (ablocks a) h)).
+  { apply blocks_dtor_spec. eapply linv_perm; [|exact I]. unfold am. permp. }
+  destruct (blocks_dtor_next (lm (alist a)) (ablocks a) h) as [N2 F2].
+  split.
+  - split; [split; [apply lwf_of_head; cbn; congruence | cbn; auto]|].
+    unfold aowned. cbn. rewrite app_nil_r. eapply linv_perm; [|exact I3].
+    unfold lowned, ids_of, hd_list. cbn [lm lhead lnodes lfree]. rewrite E, EN. permp.
+  - sp; cbn; auto.
 Qed.
 
-(* ~ArenaAllocator: reset() then ~XalanList *)
+(* ~ArenaAllocator: reset() then ~XalanList: never allocates, always completes; what stays outstanding is
+   exactly what earlier refusals lost *)
 Lemma arena_dtor_spec : forall a h h1 a1 ok, ainv a h -> arena_dtor a h = (h1, a1, ok) ->
-  (ok = true -> Permutation (live h1) (aleak a) /\ bad h1 = false) /\
-  (ok = false -> a1 = a /\ live h1 = live h /\ lhead (alist a) = None) /\
-  (lhead (alist a) <> None -> ok = true /\ next h1 = next h /\ fuse h1 = fuse h) /\
-  (fuse h = None -> ok = true).
+  ok = true /\ Permutation (live h1) (aleak a) /\ bad h1 = false /\ next h1 = next h /\ fuse h1 = fuse h.
 Proof.
   intros a h h1 a1 ok V H. unfold arena_dtor in H.
   destruct (arena_reset a h) as [[h2 a2] ok2] eqn:R.
-  pose proof (arena_reset_spec _ _ _ _ _ V R) as [[[Wl2 Wb2] I2] [AM [BS [LK [OK [TH [HH FZ]]]]]]].
-  destruct ok2.
-  - destruct (OK eq_refl) as [B0 [HD N0]].
-    destruct (list_dtor TAG_ANODE (alist a2) h2) as [h3 okd] eqn:D.
-    inversion H; subst; clear H.
-    unfold aowned in I2. rewrite B0 in I2. cbn in I2. rewrite app_nil_r in I2.
-    pose proof (list_dtor_spec _ _ _ _ _ _ Wl2 I2 D) as [-> [[_ [P Bd]] [N3 F3]]].
-    split; [intros _; split; [rewrite <- LK; exact P | exact Bd]|].
-    split; [discriminate|].
-    split; [intros HN; destruct (HH HN) as [_ [A B]]; sp; auto; congruence | auto].
-  - inversion H; subst; clear H. destruct (TH eq_refl) as [-> L].
-    split; [discriminate|].
-    split; [intros _; sp; auto; destruct (lhead (alist a)) eqn:E; auto; destruct HH as [X _]; discriminate |].
-    split; [intros HN; destruct (HH HN) as [X _]; discriminate | intros Fz; destruct (FZ Fz); discriminate].
+  pose proof (arena_reset_spec _ _ _ _ _ V R) as [[[Wl2 Wb2] I2] [AM [BS [LK [-> [B0 [N2 F2]]]]]]].
+  destruct (list_dtor TAG_ANODE (alist a2) h2) as [h3 okd] eqn:D.
+  inversion H; subst; clear H.
+  unfold aowned in I2. rewrite B0 in I2. cbn in I2. rewrite app_nil_r in I2.
+  pose proof (list_dtor_spec _ _ _ _ _ _ Wl2 I2 D) as [-> [[_ [P Bd]] [N3 F3]]].
+  sp; auto; try congruence; try (rewrite <- LK; exact P).
 Qed.
 
 Lemma astep_inv : forall op a h h1 a1 ok, ainv a h -> astep op a h = (h1, a1, ok) ->
@@ -65,34 +46,9 @@ Lemma astep_inv : forall op a h h1 a1 ok, ainv a h -> astep op a h = (h1, a1, ok
   (fuse h = None -> ok = true /\ fuse h1 = None).
 Proof.
   intros op a h h1 a1 ok V H. destruct op; cbn [astep] in H.
-  - pose proof (arena_new_obj_spec _ _ _ _ _ _ V H) as [V1 [AM [BS [LK [OK FZ]]]]].
-    sp; auto. intros Fz. split; auto.
-    (* the fuse stays off: every alloc under fuse = None leaves it None *)
-    clear - H Fz. unfold arena_new_obj in H.
-    assert (GA : forall m t c hh hx r, fuse hh = None -> alloc m t c hh = (hx, r) -> fuse hx = None).
-    { intros m t c hh hx r F A. unfold alloc in A. rewrite F in A. inversion A; subst; reflexivity. }
-    assert (GH : forall l hh hx lx okx, fuse hh = None -> get_head TAG_ANODE l hh = (hx, lx, okx) -> fuse hx = None).
-    { intros l hh hx lx okx F G. unfold get_head in G. destruct (lhead l); [inversion G; subst; auto|].
-      destruct (alloc (lm l) TAG_ANODE 1 hh) as [hy [i|]] eqn:A; inversion G; subst; eapply GA; eauto. }
-    assert (GC : forall l p hh hx lx okx, fuse hh = None -> construct_node TAG_ANODE l p hh = (hx, lx, okx) -> fuse hx = None).
-    { intros l p hh hx lx okx F G. unfold construct_node in G. destruct (lfree l); [|inversion G; subst; auto].
-      destruct (alloc (lm l) TAG_ANODE 1 hh) as [hy [i|]] eqn:A; inversion G; subst; eapply GA; eauto. }
-    destruct (get_head TAG_ANODE (alist a) h) as [[h2 l2] ok2] eqn:G.
-    pose proof (GH _ _ _ _ _ Fz G) as F2.
-    destruct ok2; [|inversion H; subst; auto].
-    destruct (last_full _).
-    + destruct (alloc _ TAG_ABLK 1 h2) as [h3 [bs|]] eqn:A1; pose proof (GA _ _ _ _ _ _ F2 A1) as F3;
-        [|inversion H; subst; auto].
-      destruct (alloc _ TAG_ASTORE _ h3) as [h4 [st|]] eqn:A2; pose proof (GA _ _ _ _ _ _ F3 A2) as F4;
-        [|inversion H; subst; auto].
-      destruct (construct_node TAG_ANODE l2 _ h4) as [[h5 l3] ok3] eqn:C. pose proof (GC _ _ _ _ _ _ F4 C) as F5.
-      destruct ok3; [|inversion H; subst; auto].
-      destruct (alloc _ TAG_BYTE osz h5) as [h6 [o|]] eqn:A3; pose proof (GA _ _ _ _ _ _ F5 A3) as F6;
-        inversion H; subst; auto.
-    + destruct (alloc _ TAG_BYTE osz h2) as [h6 [o|]] eqn:A3; pose proof (GA _ _ _ _ _ _ F2 A3) as F6;
-        inversion H; subst; auto.
-  - pose proof (arena_reset_spec _ _ _ _ _ V H) as [V1 [AM [BS [LK [OK [TH [HH FZ]]]]]]].
-    sp; auto. left; auto.
+  - pose proof (arena_new_obj_spec _ _ _ _ _ _ V H) as [V1 [AM [BS [LK [OK FZ]]]]]. sp; auto.
+  - pose proof (arena_reset_spec _ _ _ _ _ V H) as [V1 [AM [BS [LK [-> [B0 [N F]]]]]]].
+    sp; auto. left; auto. intros Fz. split; auto. congruence.
 Qed.
 
 Lemma arun_inv : forall ops a h a1 h1, ainv a h -> run _ _ astep ops a h = (a1, h1) ->
